@@ -18,6 +18,53 @@ def head_fields(head):
     return d
 
 
+def vocab_ids_check(ctx, stats, lmq, exe, sess, m, typ, kd, par, ids, oov, vfile, base, problems):
+    """the implementation's WordIndex of every vocabulary word and of unknown neighbours against the vocabulary model
+    (coq/C04/VocabModel.v: SortedVocabulary = 1 + rank of the MurmurHash64A hash, ProbingVocabulary = insertion position, unknown = 0),
+    and the same ids from the model built directly from the ARPA text."""
+    key = (typ, tuple(m.vocab))
+    seen = getattr(ctx, "vocab_ids_seen", set())
+    if key in seen:
+        return
+    seen.add(key)
+    ctx.vocab_ids_seen = seen
+    hx = lambda w: w.hex() if w else "-"
+    inserted = [m.spell(k[0]) for k in m.file_order.get(1, [])]
+    inserted = [w for w in inserted if w not in (b"<unk>", b"<UNK>")]
+    queries = [b"<unk>"] + m.vocab[1:] + oov
+    vb = 0
+    if kd in ("P", "R"):
+        import struct
+        c0 = len(m.file_order.get(1, []))
+        mult = float(par)
+        vb = max(c0 + 1, int(lc.f32(lc.f32(mult) * lc.f32(float(c0)))))
+    mo = vlib.run_lines(exe, ["VIDS %s %d %s ; %s" % ("P" if kd in ("P", "R") else "S", vb, " ".join(hx(w) for w in inserted), " ".join(hx(w) for w in queries))])
+    stats["vocab_id_checks"] = stats.get("vocab_id_checks", 0) + 1
+    stats["vocab_ids_compared"] = stats.get("vocab_ids_compared", 0) + len(queries)
+    rq = dict(base, type=typ, stream="vocab-ids")
+    if oov and any(ids[len(m.vocab) + i] != 0 for i in range(len(oov))):
+        i = next(i for i in range(len(oov)) if ids[len(m.vocab) + i] != 0)
+        problems.append(("spec:unknown-word-id:" + typ, "the spelling %r is not in the model but the loaded binary gives it the id %d" % (oov[i], ids[len(m.vocab) + i]), dict(rq, word=oov[i].hex())))
+        return
+    # the model built from the ARPA text must hand out the same ids as the binary file loaded back
+    rc, out, err = vlib.sh([lmq, sess.arpa, typ, vfile, "tmp=" + sess.dir + "/"], input=b"IDS\n", timeout=120)
+    stats["impl_runs"] += 1
+    res = out.split("\n")
+    if res[0].startswith("loaded") and len(res) >= 2:
+        aids = [int(x, 16) for x in res[1].split()]
+        if aids != ids:
+            i = next((i for i in range(min(len(aids), len(ids))) if aids[i] != ids[i]), 0)
+            problems.append(("spec:ids-differ:" + typ, "word %r has id %d in the ARPA-built model and %d in the binary loaded back" % (queries[i], aids[i], ids[i]), dict(rq, word=queries[i].hex())))
+            return
+    if not mo or not mo[0].startswith("ids "):
+        return
+    mids = [int(x, 16) for x in mo[0].split()[1:]]
+    if mids != ids:
+        i = next((i for i in range(min(len(mids), len(ids))) if mids[i] != ids[i]), 0)
+        what = "word %r: id %d in the implementation, %d in the vocabulary model" % (queries[i], ids[i], mids[i] if i < len(mids) else -1)
+        ctx.file_image_breaks = getattr(ctx, "file_image_breaks", []) + [("correspondence:vocab-ids:" + typ, what, dict(rq, word=queries[i].hex()))]
+
+
 def file_image_check(ctx, stats, lmq, exe, sess, m, typ, extra, iv, binf, base, problems):
     """the WHOLE binary file against the extracted file model (coq/C04/FileImage.v: header, vocabulary with the modelled
     MurmurHash64A, search structure of coq/C03/TrieImage.v / ProbingImage.v, vocabulary strings) -- byte for byte.  Only the
@@ -35,13 +82,28 @@ def file_image_check(ctx, stats, lmq, exe, sess, m, typ, extra, iv, binf, base, 
         par = 22                     # Config's default pointer_bhiksha_bits (lm/config.cc)
     if kd in ("P", "R") and not any(o.startswith("mult=") for o in extra):
         par = "1.5"
-    cmd = [lmq, binf, typ, sess.vocab]
+    # the vocabulary file plus spellings the model does not know (neighbours of the known ones): their ids must be 0
+    oov = []
+    known = set(m.vocab) | {b"<unk>", b"<UNK>"}
+    for w in m.vocab[1:8]:
+        for c in (w + b"x", w[:-1], w.swapcase(), b"x" + w):
+            if c and c not in known and b"\n" not in c and not any(ch in c for ch in b" \t\r\0"):
+                known.add(c)
+                oov.append(c)
+    vfile = sess.vocab
+    if oov and getattr(m, "raw_vocab", None) is None:
+        vfile = os.path.join(sess.dir, "vocab_oov.txt")
+        open(vfile, "wb").write(m.vocab_bytes() + b"\n".join(oov) + b"\n")
+    cmd = [lmq, binf, typ, vfile]
     rc, out, err = vlib.sh(cmd, input=b"IDS\n", timeout=120)
     res = out.split("\n")
     stats["impl_runs"] += 1
     if not res[0].startswith("loaded") or len(res) < 2:
         return
     ids = [int(x, 16) for x in res[1].split()]
+    if len(ids) == len(m.vocab) + len(oov):
+        vocab_ids_check(ctx, stats, lmq, exe, sess, m, typ, kd, par, ids, oov, vfile, base, problems)
+    ids = ids[:len(m.vocab)]
     if len(ids) < len(m.vocab) or len(set(ids[1:])) != len(ids) - 1:
         return                       # two spellings with one id (<unk> variants): not a vocabulary the file model describes
     ls = lc.mapped_session_lines(m, ids, mult=float(par) if kd in ("P", "R") else 1.5)
